@@ -70,7 +70,8 @@ def build(d):
         problem_class=heatNd_unforced,
         problem_params=dict(nu=0.1, freq=2, bc='dirichlet-zero', nvars=shaped(d['sh_nvars'], NVARS, 31)),
         sweeper_class=generic_implicit,
-        sweeper_params=dict(num_nodes=shaped(d['sh_nodes'], NODES, 3), quad_type=d['quad'], QI='IE'),
+        sweeper_params=dict(num_nodes=shaped(d['sh_nodes'], NODES, 3),
+                            quad_type=d['quad'] if d.get('quadc', 'same') == 'same' else [d['quad'], d['quadc']], QI='IE'),
         level_params=dict(dt=shaped(d['sh_dt'], DTS, 0.1), nsweeps=nsw, restol=-1.0),
         step_params=dict(maxiter=1),
         space_transfer_class=FlexTransfer,
